@@ -44,4 +44,12 @@ def queries(tier, seed, build):
         aligns = [0, 1, 3, 7]
         maxl = 200
     to = 900 if tier == "quick" else 3000
-    return md_queries("md4", maxl, to, useds, aligns) + md_queries("md5", maxl, to, useds, aligns)
+    qs = md_queries("md4", maxl, to, useds, aligns) + md_queries("md5", maxl, to, useds, aligns)
+    for kl in (0, 20, 63, 64, 65, 80):
+        q = Query("c16-hmac-sha1-k%d" % kl, "hmac_sha1_ref.c", units=["alg-hmac-sha1.c"], models=["libc.c", "digest_uf.c"],
+                  defs=["M_SHA1", "KLEN=%d" % kl, "TLEN=5"], unwind=10,
+                  loops=[("^harness$|^ref_hmac$|hmac_sha1_process_data", None, 90, False), ("^absorb$", None, 10, False), ("^emit$", None, 10, False)],
+                  timeout=900)
+        q.loops_optional = True
+        qs.append(q)
+    return qs
